@@ -238,6 +238,7 @@ type srvCfg struct {
 	KMax         int
 	RPCInfo      bool
 	SeqIDs       bool    // unique ids 1,2,3,... (collide with callback ids)
+	AnswerAll    bool    // the peer answers every callback (never leaves one pending for good)
 	Pushes       int     // max push actions (Notify/Callback)
 	Stops        int     // max Stop() actions
 	ForcePush    bool    // AllowPush always on
@@ -337,6 +338,13 @@ func (w *srvWorld) genMember(mi, idx, n int) *member {
 		id := ""
 		if withID {
 			id = w.genID(n)
+			if w.cfg.SeqIDs {
+				// ids that cannot collide with a callback id: a member that is not a
+				// valid request and bears the id of a pending callback is taken for
+				// that callback's reply by the library (a corner no claimed property
+				// settles; see DESIGN.md 11.7)
+				id = fmt.Sprintf(`"x%d"`, n)
+			}
 		}
 		m.ID = id
 		m.EchoID = id
@@ -693,6 +701,9 @@ func (w *srvWorld) peerSawRecord(raw string) {
 		}
 		g := w.r.Sch
 		pr.Plan = g.Weighted("replyplan", []int{5, 2, 2, 1, 1})
+		if pr.Plan == 2 && w.cfg.AnswerAll {
+			pr.Plan = 0 // this workload needs every callback answered (a handler may be waiting for it)
+		}
 		switch pr.Plan {
 		case 0:
 			w.queueReply(pr, false)
